@@ -1,5 +1,15 @@
-"""Setup / self-test: binds the harness to /repo and checks the harness' own parts."""
+"""Setup / self-test of the harness' own parts (independent of whether smpl_extract is correct)."""
+import json
+import math
+import os
+import struct
+import subprocess
 import sys
+
+
+def _fail(msg):
+    print("selftest FAILED:", msg, file=sys.stderr)
+    return 2
 
 
 def main():
@@ -7,7 +17,95 @@ def main():
     import smpl_extract
     p = smpl_extract.__file__ or ""
     if not p.startswith(core.REPO):
-        print(f"selftest: smpl_extract imported from {p}, expected under {core.REPO}", file=sys.stderr)
-        return 2
+        return _fail(f"smpl_extract imported from {p}, expected under {core.REPO}")
     print(f"selftest: smpl_extract bound to {p}")
+
+    # --- RIFF walker accepts a hand-made file and rejects broken ones
+    from mcv.ref import riff
+    data = struct.pack("<4h", 1, -2, 3, -4)
+    fmt = struct.pack("<HHIIHH", 1, 2, 44100, 44100 * 4, 4, 16)
+    body = b"WAVE" + b"fmt " + struct.pack("<I", 16) + fmt + b"data" + struct.pack("<I", len(data)) + data
+    good = b"RIFF" + struct.pack("<I", len(body)) + body
+    if riff.validate(good).errors:
+        return _fail("RIFF walker rejects a valid file: %r" % riff.validate(good).errors)
+    for bad in (good[:-1], good[:4] + struct.pack("<I", len(body) + 1) + good[8:], good.replace(fmt, fmt[:12] + struct.pack("<HH", 2, 16))):
+        if not riff.validate(bad).errors:
+            return _fail("RIFF walker accepts a broken file")
+    if riff.split_channels(data, 2) != [struct.pack("<2h", 1, 3), struct.pack("<2h", -2, -4)]:
+        return _fail("split_channels")
+
+    # --- reference chain walkers
+    from mcv.ref import chain as RC
+    assert RC.link_chain([1, 2, -1], 0) == ([0, 1, 2], "ok")
+    assert RC.link_chain([1, 0, -1], 0)[0] is None                      # cycle
+    assert RC.link_chain([2, 2, -1], 0)[0] is None                      # cross link
+    assert RC.akai_chain([0, 0x4000, 0x4000, 0], 1) == ([1, 2], "ok-run")
+    assert RC.akai_chain([0, 3, 0, 0xC000], 1) == ([1, 3], "ok")
+    assert RC.akai_chain([0, 3, 0, 0], 1)[0] is None                    # runs into free
+    T = [0xFFFA, 0, 3, 0xFFFF, 0, 0, 0, 0]
+    assert RC.roland_chain(T, 2) == ([2, 3], "ok")
+
+    # --- stream model
+    from mcv.ref.streammodel import RefFile, Reject
+    m = RefFile(b"abcdef")
+    assert m.apply(["seek", -2, 2]) == 4 and m.apply(["read", 10]) == b"ef" and m.apply(["tell"]) == 6
+    r = RefFile(b"abcd", 2)
+    try:
+        r.apply(["seek", 1, 0])
+        return _fail("reversed model accepts an unaligned seek")
+    except Reject:
+        pass
+
+    # --- naming rules, enumerators
+    from mcv.ref import names as N
+    assert N.pair_analysis(["A L", "A R", "B"]) == ([(0, 1, "A")], set(), [2])
+    assert N.pair_analysis(["A L", "A L", "A R"])[1] == {0, 1, 2}
+    assert N.component_errors("..wav") and not N.component_errors("A (2).wav")
+    from mcv.ref import filters as RF
+    assert sum(1 for _ in RF.compositions(6)) == 32 and all(sum(c) == 6 for c in RF.compositions(6))
+    from mcv.checks.c11 import interleavings
+    assert sum(1 for _ in interleavings([2, 2, 2])) == math.factorial(6) // 8
+    from mcv.ref import fields as F
+    h, vals, capped = F.parse_info("X  T\n----\na: 1\nb:\n  c: 2\n  d:\n    d[0]: 3\n")
+    assert vals == {"a": "1", "b": "", "b/c": "2", "b/d": "", "b/d/d[0]": "3"}, vals
+
+    # --- writers: layout maps point at what they say
+    from mcv.gen import akai as A
+    spec = {"parts": [{"vols": [{"name": "VOL", "dir": [3], "files": [{"name": "SMP", "n": 40, "chain": [5], "seq": 1}]}]}]}
+    img, lay = A.build_akai(A.model_from_spec(spec))
+    o, ln = lay["p0.vol0.file0.entry"]
+    if img[o:o + 12] != A.akai_name("SMP") or struct.unpack_from("<H", img, o + 20)[0] != 5:
+        return _fail("AKAI layout map: file entry")
+    if struct.unpack_from("<H", img, A.sat_word_offset(lay, 0, 5))[0] != 0xC000:
+        return _fail("AKAI layout map: SAT word")
+    from mcv.gen import roland as R
+    model = {"volumes": [{"name": "V", "perfs": [0]}], "performances": {0: {"name": "P", "patches": [0]}},
+             "patches": {0: {"name": "PA", "partials": [0]}}, "partials": {0: {"name": "PL", "samples": [0]}},
+             "samples": {0: {"name": "S", "chain": [3, 2], "points": [0, 0, 9, 0, 9], "mode": 0, "seq": 1}}}
+    rimg, rlay = R.build_roland(model)
+    if struct.unpack_from("<H", rimg, R.FAT_OFF + 6)[0] != 2 or struct.unpack_from("<H", rimg, R.FAT_OFF + 4)[0] != 0xFFF8:
+        return _fail("Roland writer: FAT words")
+    o, _ = rlay["sample0.dir"]
+    if rimg[o:o + 1] != b"S" or struct.unpack_from("<H", rimg, o + 28)[0] != 3:
+        return _fail("Roland layout map: sample directory record")
+    from mcv.gen import cue as Q
+    if Q.frames_bytes(5, 9) != Q.bin_bytes(20)[5:14] or Q.msf(4501) != "01:00:01":
+        return _fail("cue generator")
+    from mcv.gen import containers as C
+    w = C.mode1_2352(b"x" * 3000)
+    if len(w) != 2 * 2352 or w[16:16 + 2048] != b"x" * 2048 or w[15] != 1:
+        return _fail("MODE1/2352 writer")
+
+    # --- manifest / evidence schemas (when the tooling interpreter is present)
+    vt = "/opt/veriftools/pyvenv/bin/python"
+    if os.path.exists(vt) and os.path.exists("/root/.vp/MANIFEST.schema.json"):
+        code = ("import json,jsonschema,glob,sys\n"
+                "jsonschema.validate(json.load(open('%s/MANIFEST.json')), json.load(open('/root/.vp/MANIFEST.schema.json')))\n"
+                "s=json.load(open('/root/.vp/EVIDENCE.schema.json'))\n"
+                "[jsonschema.validate(json.load(open(f)), s) for f in glob.glob('%s/evidence/*.json')]\n" % (core.VERIF, core.VERIF))
+        r = subprocess.run([vt, "-c", code], capture_output=True, text=True)
+        if r.returncode != 0:
+            return _fail("schema validation: " + r.stderr[-400:])
+        print("selftest: MANIFEST.json and evidence files validate against the schemas")
+    print("selftest: ok")
     return 0
